@@ -201,7 +201,18 @@ theorem contour_edges (c : Contour α) :
 theorem edge_test_is_crossing (pt cur next : Point α) (hoff : ¬ OnEdge pt cur next) :
     edgeHit pt cur next = true ↔ Crosses pt cur next := edgeHit_iff pt cur next hoff
 
-/-- `Polygon.ContainsEvenOdd` is the even-odd rule over the contours, `Polygon.Contains` their union -/
+/-- "ContainsEvenOdd agree[s] with the crossing-number definition away from edges": for a point on no edge of any
+    contour, `Polygon.ContainsEvenOdd` is the parity of the crossings of the ray summed over ALL edges of ALL contours -/
+theorem evenodd_crossing (p : Polygon α) (pt : Point α)
+    (h : ∀ c ∈ p, ∀ e ∈ Contour.edges c, ¬ OnEdge pt e.1 e.2) :
+    Polygon.containsEvenOdd p pt = true ↔
+      ((p.map (fun c => (Contour.edges c).countP (fun e => decide (Crosses pt e.1 e.2)))).sum) % 2 = 1 := by
+  unfold Polygon.containsEvenOdd
+  rw [beq_iff_eq, evenodd_parity p pt h]
+
+/-- how the polygon-level functions are composed from `Contour.Contains` (definitional: `ContainsEvenOdd` is the parity
+    of the number of containing contours, `Contains` their disjunction); the crossing-number content is
+    `contour_contains_crossing` and `evenodd_crossing` -/
 theorem evenodd_spec (p : Polygon α) (pt : Point α) :
     (Polygon.containsEvenOdd p pt = true ↔ (p.countP (fun c => Contour.contains c pt)) % 2 = 1) ∧
     (Polygon.contains p pt = true ↔ ∃ c ∈ p, Contour.contains c pt = true) := by
@@ -224,7 +235,10 @@ theorem bounds_encloses (p : Polygon α) (c : Contour α) (hc : c ∈ p) (v : Po
   exact ⟨contour_bounds_In c v hv, polygon_bounds_In p c hc v hv⟩
 
 /-- "Transform maps every vertex by the matrix": same shape, vertex `i` of contour `j` is the image of the original
-    vertex (the operand is a value; the harness checks separately that the Go operand is left untouched) -/
+    vertex.  "Without touching the original" is vacuous in a pure model (the operand is a value) and is NOT a theorem:
+    it is checked on the Go side only — the harness compares the operand before and after Transform (also after
+    overwriting the result), and before and after Bounds / Contains / ContainsEvenOdd; `Rect` and `Matrix` operands are
+    Go values passed by copy, so Union/Intersect/Multiply cannot touch them by construction of the language -/
 theorem transform_maps_vertices (p : Polygon α) (m : Matrix α) (j i : Nat) :
     (Polygon.transform p m).length = p.length ∧
     ((Polygon.transform p m)[j]?.bind (·[i]?)) = (p[j]?.bind (·[i]?)).map m.transformPoint := by
